@@ -354,7 +354,11 @@ func Fold(t *Tree, s *Scenario) *Expect {
 			// with require-order the statement is silent about a mixed bundle: not generated.
 			for _, fl := range it.Flags {
 				f.called(fl.Opt, fl.Key)
-				f.applyFlag(fl.Opt)
+				if fl.K == IValued {
+					f.applyValue(fl.Opt, fl.Vals[0], true) // takes the token behind the bundle as its value
+				} else {
+					f.applyFlag(fl.Opt)
+				}
 			}
 			f.unknownTok(it)
 		}
